@@ -431,9 +431,19 @@ type wireChild struct {
 	uin   chan []byte
 }
 
-func startWireChild() (*wireChild, error) {
-	cmd := exec.Command(os.Args[0], "wirechild")
+func startWireChild() (*wireChild, error) { return startWireChildBin(false) }
+
+// startWireChildBin: race selects the race-detector build of the child (VERIF_WIRE_CHILD_BIN) if there is one.
+func startWireChildBin(race bool) (*wireChild, error) {
+	bin := os.Args[0]
+	if b := os.Getenv("VERIF_WIRE_CHILD_BIN"); b != "" && race {
+		bin = b // the same program built with the race detector
+	}
+	cmd := exec.Command(bin, "wirechild")
 	cmd.Env = append(os.Environ(), "VERIF_DEBUG=")
+	if p := os.Getenv("VERIF_WIRE_RACELOG"); p != "" && race {
+		cmd.Env = append(cmd.Env, "GORACE=halt_on_error=0 log_path="+p)
+	}
 	stdin, _ := cmd.StdinPipe()
 	stdout, _ := cmd.StdoutPipe()
 	errf, _ := os.CreateTemp("", "wirechild-*.log")
@@ -643,6 +653,7 @@ func cmdWire(args []string) {
 	limit := fs.Int("limit", 0, "max number of vectors of length > 1 (0 = all); length-1 vectors always run")
 	transports := fs.String("transports", "tcp,udp,ws,ext", "transports")
 	inst := fs.Int("instances", 1, "concrete instances per vector and transport")
+	storm := fs.Duration("storm", 2*time.Second, "duration of the concurrent well-formed traffic phase (0 = skip)")
 	_ = fs.Parse(args)
 	res := &Result{}
 	defer res.write(*out)
@@ -823,6 +834,23 @@ func cmdWire(args []string) {
 		}
 	}
 done:
+	if *storm > 0 && wc != nil && wc.alive() {
+		// the concurrent phase runs against a fresh child, the race-detector build if there is one
+		gor := wc.goroutines()
+		wc.stop()
+		res.Counters["goroutines_after_vectors"] = gor
+		wc, err = startWireChildBin(true)
+		if err != nil {
+			res.Inconclusive = append(res.Inconclusive, "storm child: "+err.Error())
+
+			return
+		}
+		sessSince = 0
+		if sig, what := runWireStorm(wc, *storm); sig != "" {
+			res.violate(sig, what, map[string]any{"phase": "storm"})
+		}
+		res.count("storm_runs")
+	}
 	if wc != nil && wc.alive() {
 		time.Sleep(1500 * time.Millisecond) // Recv time-outs of ended sessions are 1 s
 		res.Counters["goroutines_at_end"] = wc.goroutines()
@@ -844,4 +872,74 @@ func hexAll(bs [][]byte) []string {
 	}
 
 	return out
+}
+
+// runWireStorm: several established sessions send well-formed traffic about the same things at the same time for a
+// while (Wire.tla judges one session; the sessions of a node run as concurrent goroutines over shared tables, so the
+// property "no bytes from a peer can crash the node" also covers what two peers send at the same instant):
+// ever newer withdrawals of one service against late copies of its old advertisement and re-advertisements, ever newer
+// routing updates of one origin against stale ones, pings. Afterwards the node must be alive and answer its
+// well-behaved peers. With a race-detector build of the child (VERIF_WIRE_CHILD_BIN + VERIF_WIRE_RACELOG) the caller
+// also learns about unsynchronised accesses that did not happen to collide this time.
+func runWireStorm(wc *wireChild, d time.Duration) (sig, what string) {
+	type role struct {
+		id   string
+		make func(k int) []byte
+	}
+	t0 := time.Date(2031, 1, 1, 0, 0, 0, 0, time.UTC)
+	ts := func(k int) string { return fmt.Sprintf("%q", t0.Add(time.Duration(k)*time.Millisecond).Format(time.RFC3339Nano)) }
+	roles := []role{
+		{"stw", func(k int) []byte {
+			return adJSON("ghost", map[string]string{"Service": `"gsvc"`, "Cancel": "true", "Time": ts(2 * k)})
+		}},
+		{"str1", func(k int) []byte { return adJSON("ghost", map[string]string{"Service": `"gsvc"`, "Time": ts(0)}) }},
+		{"str2", func(k int) []byte { return adJSON("ghost", map[string]string{"Service": `"gsvc"`, "Time": ts(2*k + 1)}) }},
+		{"str3", func(k int) []byte {
+			return adJSON("ghost", map[string]string{"Service": fmt.Sprintf("%q", fmt.Sprintf("g%d", k%5)), "Time": ts(k), "Cancel": fmt.Sprint(k%2 == 0)})
+		}},
+		{"stu1", func(k int) []byte {
+			return ruJSON("stu1", 0, fmt.Sprintf("stu1-%d", k), map[string]string{"NodeID": `"storig"`, "UpdateSequence": fmt.Sprint(10 + k), "Connections": fmt.Sprintf(`{"q%d":1}`, k%3)})
+		}},
+		{"stu2", func(k int) []byte {
+			return ruJSON("stu2", 0, fmt.Sprintf("stu2-%d", k), map[string]string{"NodeID": `"storig"`, "UpdateSequence": fmt.Sprint(5 + k/2), "Connections": `{"q9":1}`})
+		}},
+		{"stp", func(k int) []byte { return peer.EncodeData(5, "stp", "victim", "prb", "ping", nil) }},
+	}
+	var wg sync.WaitGroup
+	stop := time.Now().Add(d)
+	for _, r := range roles {
+		c, err := dialFramed(wc.ports.TCP)
+		if err != nil {
+			return "", ""
+		}
+		_ = c.Send(ruJSON(r.id, 1, r.id+"-hs0", map[string]string{"Connections": "{}"}))
+		_ = c.Send(ruJSON(r.id, 2, r.id+"-hs1", nil))
+		wg.Add(1)
+		go func(r role, c *framedConn) {
+			defer wg.Done()
+			defer c.Close()
+			for k := 1; time.Now().Before(stop); k++ {
+				if c.Send(r.make(k)) != nil {
+					return
+				}
+				for len(c.frames) > 0 {
+					<-c.frames
+				}
+			}
+		}(r, c)
+	}
+	wg.Wait()
+	time.Sleep(100 * time.Millisecond)
+	ok := wc.probe(10 * time.Second)
+	if !ok && wc.alive() {
+		ok = wc.probe(20 * time.Second)
+	}
+	if !wc.alive() {
+		return "C07:crash:concurrent-wellformed-traffic", "the node process exited while several peers sent well-formed advertisements, withdrawals and routing updates about the same service / origin at the same time"
+	}
+	if !ok {
+		return "C07:wedged:concurrent-wellformed-traffic", "the well-behaved peers' pings went unanswered after several peers had sent well-formed advertisements, withdrawals and routing updates at the same time"
+	}
+
+	return "", ""
 }
